@@ -13,7 +13,7 @@ ASSUMPTIONS = ['expected outcome is computed from the program text and the reque
                'hooks do not raise (C03 owns that)']
 REQUIRED = ['terminated', 'final/finished', 'final/excepted', 'final/killed', 'kill_while_paused', 'kill_in_step', 'kill_from_listener',
             'unsuccessful_by_outputs']
-ALPHABET = [['pause', 'p'], ['play'], ['kill', 'k'], ['resume', ['v']]]
+ALPHABET = [['pause', 'p'], ['play'], ['kill', 'k'], ['resume', ['v']], ['fail', 'f'], ['soon_raise', 'c']]
 BOUNDS = {'quick': 'basic program family (+required-output variants), K<=2 exhaustive', 'thorough': '+ 40 random programs, K=3 sampled'}
 
 
